@@ -629,6 +629,11 @@ class ExprMixin:
     def contains(self, container, item, node):
         container = self.resolve(container)
         item = self.resolve(item)
+        if isinstance(container, RangeV) and container.step == 1:
+            li = self.as_lin(item)
+            if li is not None and not (isinstance(item, ConstV) and isinstance(item.value, bool)):
+                # n in range(a, b)  <=>  a <= n < b   (decide_ge0 forks and records the bound on either branch)
+                return bool(self.decide_ge0(li - Lin.of(container.lo))) and bool(self.decide_ge0(Lin.of(container.hi) - li - 1))
         if isinstance(container, (TupleV, ListV)) and getattr(container, 'items', None) is not None:
             for x in container.items:
                 if self.equal(item, x, node):
@@ -1212,21 +1217,19 @@ class ExprMixin:
         return isinstance(f, ast.Name) and f.id in self.EAGER_CONSUMERS or isinstance(f, ast.Attribute) and f.attr in self.EAGER_METHODS
 
     def _comprehension(self, node, elt, kind):
-        if len(node.generators) == 1 and not node.generators[0].is_async and not self.nofork:
-            src = self.resolve(self.eval(node.generators[0].iter)) if isinstance(
-                node.generators[0].iter, (ast.Name, ast.Attribute, ast.Tuple, ast.List)) or self._const_range(node.generators[0].iter) else None
-            if isinstance(src, (TupleV, ListV)) and src.items is not None and len(src.items) <= 8 and \
-                    not getattr(src, 'loop_open', False):
-                r = self._comprehension_exact(node, elt, kind, list(src.items))
-                if r is not None:
-                    return r
         fr = self.frames[-1]
         first_iter = None
         if node.generators and not self.nofork:
-            # the first iterable is evaluated in the enclosing scope (as Python does); a generator call is run to its end
-            # here, with forking, so that its loops and the errors its body can raise are explored like any other code
+            # the first iterable is evaluated (once) in the enclosing scope, as Python does
             first_iter = self.eval(node.generators[0].iter)
             g0 = self.resolve(first_iter)
+            if len(node.generators) == 1 and not node.generators[0].is_async and kind != 'gen':
+                # a small concrete collection (a literal, the items of a fully known dictionary): one exact evaluation per item
+                if isinstance(g0, (TupleV, ListV)) and g0.items is not None and len(g0.items) <= 16 and \
+                        not getattr(g0, 'loop_open', False):
+                    r = self._comprehension_exact(node, elt, kind, list(g0.items))
+                    if r is not None:
+                        return r
             if isinstance(g0, GenCallV) and (kind != 'gen' or self._consumed_at_once(node)):
                 first_iter = self.drain_generator(g0, node.generators[0].iter)
             elif isinstance(g0, GenCallV) and not g0.started and len(node.generators) == 1:
